@@ -946,6 +946,12 @@ impl<'a> Interp<'a> {
         if !left.is_empty() {
             self.viol("abandon-trace", format!("abandon-trace/tmp-left/{}/{}", how, flav), format!("{} temp file(s) remain in tmp/ after a {} writer: {:?}", left.len(), how, left));
         }
+        if !self.m.index_dir && !self.m.foreign && self.cache.join("index-v5").exists() && self.out.faults.keys().all(|k| !k.starts_with("bucket.") && !k.starts_with("fs.")) {
+            // by the history there is no index yet (nothing was ever inserted, or the cache was cleared): a writer
+            // that maps nothing has no business creating it (a listing of the cache changes from "no index" to "empty")
+            self.viol("abandon-trace", format!("abandon-trace/index-dir-created/{}/{}", how, flav), format!("a {} writer created the index directory of a cache that had none", how));
+            self.m.index_dir = true;
+        }
         if let Some(pre) = pre_list {
             let post = disk::scan(&self.cache).live_entries();
             if pre != post {
